@@ -8,12 +8,23 @@
 package main
 
 import (
+	"bytes"
 	"context"
+	"crypto/ed25519"
+	"crypto/sha1"
+	"crypto/sha256"
 	"errors"
 	"fmt"
+	"os"
+	"path/filepath"
+	"regexp"
 	"runtime"
+	"strconv"
 	"strings"
 	"sync"
+
+	"github.com/aperturerobotics/bifrost/crypto"
+	"github.com/zeebo/blake3"
 
 	"github.com/aperturerobotics/bifrost/hash"
 	"github.com/aperturerobotics/bifrost/peer"
@@ -34,6 +45,7 @@ const (
 // symbolic message table: signed part (marshalled) -> Coq term pieces
 type symSigned struct {
 	from, data, sig string // Coq terms
+	ht, att         string // hash type and attached public key (Coq terms)
 	class           string
 	honest          bool // signed by A under the signaling context over this body, claiming A
 }
@@ -58,20 +70,20 @@ func (t *symtab) add(m *signaling_rpc.SessionMsg, s *symSigned) {
 // term renders a SessionMsg as a Coq smsg term.
 func (t *symtab) term(m *signaling_rpc.SessionMsg) string {
 	if s, ok := t.tab[signedKey(m.GetSignedMsg())]; ok {
-		return hx.App("mkMsg", s.from, s.data, s.sig, hx.U(m.GetSeqno()))
+		return hx.App("mkMsg", s.from, s.data, s.sig, hx.U(m.GetSeqno()), s.ht, s.att)
 	}
-	// not crafted by the harness: a message produced by the client itself.
-	_, id, err := m.ExtractAndVerify()
-	if err == nil {
-		for _, k := range t.ids {
-			if k.pid == id {
-				d := hx.Bytes(m.GetSignedMsg().GetData())
-				return hx.App("mkMsg", hx.App("FromKey", hx.Nat(k.idx)), d,
-					hx.App("SigOf", hx.Nat(k.idx), "sig_ctx", d), hx.U(m.GetSeqno()))
-			}
+	// not crafted by the harness: a message produced by the client itself
+	// (checked with the primitives, not with the code under test).
+	for _, k := range t.ids {
+		if m.GetSignedMsg().GetFromPeerId() == k.str && len(m.GetSignedMsg().GetSignature().GetPubKey()) == 0 &&
+			cryptoAuthentic(m, k) {
+			d := hx.Bytes(m.GetSignedMsg().GetData())
+			ht := hx.U(uint64(m.GetSignedMsg().GetSignature().GetHashType()))
+			return hx.App("mkMsg", hx.App("FromKey", hx.Nat(k.idx)), d,
+				hx.App("SigOf", hx.Nat(k.idx), "sig_ctx", ht, d), hx.U(m.GetSeqno()), ht, "AttNone")
 		}
 	}
-	return hx.App("mkMsg", "FromBad", hx.Bytes(m.GetSignedMsg().GetData()), "SigJunk", hx.U(m.GetSeqno()))
+	return hx.App("mkMsg", "FromBad", hx.Bytes(m.GetSignedMsg().GetData()), "SigJunk", hx.U(m.GetSeqno()), "0", "AttNone")
 }
 
 func (t *symtab) lookup(m *signaling_rpc.SessionMsg) *symSigned {
@@ -85,27 +97,56 @@ func (t *symtab) optTerm(m *signaling_rpc.SessionMsg) string {
 	return "(Some " + t.term(m) + ")"
 }
 
+// encoding is how the signature object is put on the wire: the optional
+// attached public key and extra unknown protobuf fields.
+type encoding struct {
+	att   string // "" | "third" | "a" | "self" | "garbage"
+	extra bool   // unknown fields appended to Signature and SignedMsg
+}
+
+var attChoices = []string{"", "", "third", "a", "self", "garbage"}
+
 // craft builds a relay-side message of the given class claiming (mostly) to
 // come from A = ids[1]; the local peer is ids[0], the third party ids[2].
-func (t *symtab) craft(class string, body []byte, seq uint64, flipAt int) *signaling_rpc.SessionMsg {
+func (t *symtab) craft(class string, body []byte, seq uint64, flipAt int, enc encoding) *signaling_rpc.SessionMsg {
 	self, A, third := t.ids[0], t.ids[1], t.ids[2]
-	mk := func(id *identity) *signaling_rpc.SessionMsg {
-		m, err := signaling_rpc.NewSessionMsg(id.priv, hash.HashType_HashType_BLAKE3, body, seq)
+	b3, s256 := hash.HashType_HashType_BLAKE3, hash.HashType_HashType_SHA256
+	mkH := func(id *identity, ht hash.HashType) *signaling_rpc.SessionMsg {
+		m, err := signaling_rpc.NewSessionMsg(id.priv, ht, body, seq)
 		if err != nil {
 			panic(err)
 		}
 		return m
 	}
+	mk := func(id *identity) *signaling_rpc.SessionMsg { return mkH(id, b3) }
 	fromK := func(id *identity) string { return hx.App("FromKey", hx.Nat(id.idx)) }
-	sigOf := func(id *identity, ctx string, b []byte) string {
-		return hx.App("SigOf", hx.Nat(id.idx), ctx, hx.Bytes(b))
+	sigOfH := func(id *identity, ctx string, ht hash.HashType, b []byte) string {
+		return hx.App("SigOf", hx.Nat(id.idx), ctx, hx.U(uint64(ht)), hx.Bytes(b))
 	}
+	sigOf := func(id *identity, ctx string, b []byte) string { return sigOfH(id, ctx, b3, b) }
 	var m *signaling_rpc.SessionMsg
 	var s *symSigned
 	switch class {
 	case "honest", "honest-seq0":
 		m = mk(A)
 		s = &symSigned{from: fromK(A), data: hx.Bytes(body), sig: sigOf(A, "sig_ctx", body), honest: true}
+	case "honest-sha256":
+		// a genuine signature of A over the SHA-256 sign body
+		m = mkH(A, s256)
+		s = &symSigned{from: fromK(A), data: hx.Bytes(body), sig: sigOfH(A, "sig_ctx", s256, body), honest: true}
+	case "ht-changed":
+		// A's BLAKE3 signature relabelled as SHA-256
+		m = mk(A)
+		m.SignedMsg.Signature.HashType = s256
+		s = &symSigned{from: fromK(A), data: hx.Bytes(body), sig: sigOf(A, "sig_ctx", body)}
+	case "ht-unknown":
+		m = mk(A)
+		m.SignedMsg.Signature.HashType = hash.HashType(7 + flipAt%50)
+		s = &symSigned{from: fromK(A), data: hx.Bytes(body), sig: sigOf(A, "sig_ctx", body)}
+	case "ht-zero":
+		m = mk(A)
+		m.SignedMsg.Signature.HashType = hash.HashType_HashType_UNKNOWN
+		s = &symSigned{from: fromK(A), data: hx.Bytes(body), sig: sigOf(A, "sig_ctx", body)}
 	case "flip-body":
 		m = mk(A)
 		d := append([]byte{}, body...)
@@ -122,6 +163,15 @@ func (t *symtab) craft(class string, body []byte, seq uint64, flipAt int) *signa
 		m = mk(third)
 		m.SignedMsg.FromPeerId = A.str
 		s = &symSigned{from: fromK(A), data: hx.Bytes(body), sig: sigOf(third, "sig_ctx", body)}
+	case "third-claims-a-sha256":
+		m = mkH(third, s256)
+		m.SignedMsg.FromPeerId = A.str
+		s = &symSigned{from: fromK(A), data: hx.Bytes(body), sig: sigOfH(third, "sig_ctx", s256, body)}
+	case "self-claims-a":
+		// the local peer's own signature re-attributed to A
+		m = mk(self)
+		m.SignedMsg.FromPeerId = A.str
+		s = &symSigned{from: fromK(A), data: hx.Bytes(body), sig: sigOf(self, "sig_ctx", body)}
 	case "third-own":
 		m = mk(third)
 		s = &symSigned{from: fromK(third), data: hx.Bytes(body), sig: sigOf(third, "sig_ctx", body)}
@@ -130,16 +180,25 @@ func (t *symtab) craft(class string, body []byte, seq uint64, flipAt int) *signa
 		s = &symSigned{from: fromK(self), data: hx.Bytes(body), sig: sigOf(self, "sig_ctx", body)}
 	case "other-context":
 		octx := "bifrost/verif other context"
-		sm, err := peer.NewSignedMsg(octx, A.priv, hash.HashType_HashType_BLAKE3, body)
+		sm, err := peer.NewSignedMsg(octx, A.priv, b3, body)
 		if err != nil {
 			panic(err)
 		}
 		m = &signaling_rpc.SessionMsg{SignedMsg: sm, Seqno: seq}
 		s = &symSigned{from: fromK(A), data: hx.Bytes(body), sig: sigOf(A, hx.Str(octx), body)}
+	case "third-other-context-claims-a":
+		octx := "bifrost/verif other context"
+		sm, err := peer.NewSignedMsg(octx, third.priv, b3, body)
+		if err != nil {
+			panic(err)
+		}
+		sm.FromPeerId = A.str
+		m = &signaling_rpc.SessionMsg{SignedMsg: sm, Seqno: seq}
+		s = &symSigned{from: fromK(A), data: hx.Bytes(body), sig: sigOf(third, hx.Str(octx), body)}
 	case "transplant":
 		// signature of another honest message of A on this body
 		other := append([]byte("x"), body...)
-		mo, err := signaling_rpc.NewSessionMsg(A.priv, hash.HashType_HashType_BLAKE3, other, seq)
+		mo, err := signaling_rpc.NewSessionMsg(A.priv, b3, other, seq)
 		if err != nil {
 			panic(err)
 		}
@@ -157,13 +216,123 @@ func (t *symtab) craft(class string, body []byte, seq uint64, flipAt int) *signa
 	default:
 		panic("unknown class " + class)
 	}
+	s.ht = hx.U(uint64(m.SignedMsg.Signature.HashType))
+	// the encoding of the signature object
+	s.att = "AttNone"
+	attach := func(id *identity) {
+		pk, err := crypto.MarshalPublicKey(id.priv.GetPublic())
+		if err != nil {
+			panic(err)
+		}
+		m.SignedMsg.Signature.PubKey = pk
+		s.att = hx.App("AttKey", hx.Nat(id.idx))
+	}
+	switch enc.att {
+	case "third":
+		attach(third)
+	case "a":
+		attach(A)
+	case "self":
+		attach(self)
+	case "garbage":
+		m.SignedMsg.Signature.PubKey = []byte{0xff, 0x01, byte(flipAt), 0x7f, 0x00, 0x13}
+		s.att = "AttBad"
+		s.honest = false
+	}
+	if enc.extra {
+		m.SignedMsg.Signature = withUnknownField(m.SignedMsg.Signature, &peer.Signature{}, 14, uint64(flipAt))
+		m.SignedMsg = withUnknownField(m.SignedMsg, &peer.SignedMsg{}, 15, uint64(flipAt)+1)
+	}
 	s.class = class
+	if enc.att != "" {
+		s.class += "+pubkey-" + enc.att
+	}
+	if enc.extra {
+		s.class += "+unknown-fields"
+	}
 	t.add(m, s)
 	return m
 }
 
-var badClasses = []string{"flip-body", "flip-sig", "third-claims-a", "third-own", "reflect-self",
-	"other-context", "transplant", "empty-body", "empty-from"}
+type vtMsg interface {
+	MarshalVT() ([]byte, error)
+	UnmarshalVT([]byte) error
+}
+
+// withUnknownField re-parses m with an extra varint field appended on the wire.
+func withUnknownField[T vtMsg](m T, fresh T, field int, v uint64) T {
+	b, err := m.MarshalVT()
+	if err != nil {
+		panic(err)
+	}
+	b = append(b, byte(field<<3), byte(v&0x7f))
+	if err := fresh.UnmarshalVT(b); err != nil {
+		panic(err)
+	}
+	return fresh
+}
+
+// encContext of the signaling messages, read from the source under test (the
+// constant is unexported); used only by the independent oracle.
+var encContextOnce struct {
+	sync.Once
+	v string
+}
+
+func signalingContext() string {
+	encContextOnce.Do(func() {
+		repo := os.Getenv("VERIF_REPO")
+		if repo == "" {
+			repo = "/repo"
+		}
+		src, err := os.ReadFile(filepath.Join(repo, "signaling/rpc/signaling.go"))
+		if err != nil {
+			panic(err)
+		}
+		mm := regexp.MustCompile(`const encContext = "([^"]*)"`).FindSubmatch(src)
+		if mm == nil {
+			panic("encContext not found")
+		}
+		encContextOnce.v = string(mm[1])
+	})
+	return encContextOnce.v
+}
+
+// cryptoAuthentic is the independent check of the property: the message's
+// signature verifies under the Ed25519 key of identity id (NOT a key taken
+// from the message) over context, hash type and hash of exactly its body.
+// Uses crypto/ed25519 and the hash primitives directly.
+func cryptoAuthentic(m *signaling_rpc.SessionMsg, id *identity) bool {
+	sm := m.GetSignedMsg()
+	if len(sm.GetData()) == 0 {
+		return false
+	}
+	ht := sm.GetSignature().GetHashType()
+	var h []byte
+	switch ht {
+	case hash.HashType_HashType_BLAKE3:
+		x := blake3.Sum256(sm.GetData())
+		h = x[:]
+	case hash.HashType_HashType_SHA256:
+		x := sha256.Sum256(sm.GetData())
+		h = x[:]
+	case hash.HashType_HashType_SHA1:
+		x := sha1.Sum(sm.GetData())
+		h = x[:]
+	default:
+		return false
+	}
+	body := bytes.Join([][]byte{[]byte(signalingContext()), []byte(strconv.Itoa(int(ht))), h}, []byte(" - SIGN - "))
+	raw, err := id.priv.GetPublic().Raw()
+	if err != nil || len(raw) != ed25519.PublicKeySize {
+		return false
+	}
+	return ed25519.Verify(ed25519.PublicKey(raw), body, sm.GetSignature().GetSigData())
+}
+
+var badClasses = []string{"flip-body", "flip-sig", "third-claims-a", "third-claims-a", "third-claims-a-sha256",
+	"self-claims-a", "third-own", "reflect-self", "other-context", "third-other-context-claims-a", "transplant",
+	"empty-body", "empty-from", "ht-changed", "ht-unknown", "ht-zero"}
 
 // ------------------------------------------------------------------ script ops
 
